@@ -153,3 +153,9 @@ def check(ctx):
         if kind != "return" and st:
             return "acquire_nowait raises after taking the lock"
     ctx.paths("R09-e", nowait, [("own", "self._owner_task = $T")], step2, 0, at_exit2, instance="acquire_nowait outcome")
+
+    # ---- R09-g the public class, its adapter and `async with` agree with the backend lock ------------------------------------------
+    from .adapters import check_adapter, check_factory, check_async_with
+    check_adapter(ctx, "R09-g", "LockAdapter", "_internal_lock", "_lock", "create_lock", {"fast_acquire": "_fast_acquire"}, value_members=("locked", "statistics"))
+    check_factory(ctx, "R09-g", "Lock", "create_lock", "LockAdapter")
+    check_async_with(ctx, "R09-g", "Lock")
